@@ -303,17 +303,64 @@ func changeFnFacts(c *an.Ctx, rule string) *cfFacts {
 	if fn == nil {
 		return nil
 	}
-	if len(fn.AnonFuncs) != 1 {
-		c.Unk(rule, "WriteRequest.changeFn|closure", fn.Pos(), fmt.Sprintf("expected changeFn to return one function literal, found %d", len(fn.AnonFuncs)))
+	var cl *ssa.Function
+	names := map[ssa.Value]string{}
+	rewrite := map[string]string{} // rendered prefix -> canonical name (bound-method form)
+	switch {
+	case len(fn.AnonFuncs) == 1:
+		cl = fn.AnonFuncs[0]
+	case len(fn.AnonFuncs) == 0:
+		// the change function is a method value of an object built here from (wr, writer, value): `return c.apply`
+		for _, r := range an.Returns(fn) {
+			if len(r.Results) != 1 {
+				continue
+			}
+			for _, src := range an.SourcesOpaque(r.Results[0]) {
+				mc, isMC := src.(*ssa.MakeClosure)
+				if !isMC || len(mc.Bindings) != 1 {
+					continue
+				}
+				body, _, _ := an.CallbackBody(mc)
+				if body == nil || len(body.Params) != 3 {
+					continue
+				}
+				// what the object's fields hold: stores in changeFn whose value is one of changeFn's parameters
+				pnames := []string{"wr", "writer", "value"}
+				an.Instrs(fn, func(in ssa.Instruction) {
+					st, isSt := in.(*ssa.Store)
+					if !isSt {
+						return
+					}
+					_, _, fld, isF := an.FieldOf(st.Addr)
+					if !isF {
+						return
+					}
+					for _, vs := range an.SourcesOpaque(st.Val) {
+						for i, prm := range fn.Params {
+							if vs == ssa.Value(prm) && i < len(pnames) {
+								rewrite["§c."+fld] = pnames[i]
+							}
+						}
+					}
+				})
+				if len(rewrite) == 3 {
+					cl = body
+					names[body.Params[0]] = "§c"
+				}
+			}
+		}
+	}
+	if cl == nil {
+		c.Unk(rule, "WriteRequest.changeFn|closure", fn.Pos(), fmt.Sprintf("expected changeFn to return one function literal (or a method value of an object holding the request, the writer and the value), found %d literals", len(fn.AnonFuncs)))
 		return nil
 	}
-	cl := fn.AnonFuncs[0]
 	c.SawFunc(an.FuncName(cl))
-	if len(cl.Params) != 2 {
+	if len(cl.Params) < 2 {
 		c.Unk(rule, "WriteRequest.changeFn|closure", cl.Pos(), "closure does not have (old, dst) parameters")
 		return nil
 	}
-	names := map[ssa.Value]string{cl.Params[0]: "old", cl.Params[1]: "dst"}
+	names[cl.Params[len(cl.Params)-2]] = "old"
+	names[cl.Params[len(cl.Params)-1]] = "dst"
 	for _, fv := range cl.FreeVars {
 		et := deref(fv.Type())
 		switch {
@@ -326,6 +373,16 @@ func changeFnFacts(c *an.Ctx, rule string) *cfFacts {
 		}
 	}
 	leaves := an.DecisionTree(cl, an.DTConfig{Names: names})
+	if len(rewrite) > 0 {
+		var pairs []string
+		for _, k := range an.SortedKeys(rewrite) {
+			pairs = append(pairs, k, rewrite[k])
+		}
+		rp := strings.NewReplacer(pairs...)
+		for _, l := range leaves {
+			l.Rewrite(rp.Replace)
+		}
+	}
 	f := &cfFacts{cl: cl, bad: map[string]string{}, nLeaves: len(leaves)}
 	fail := func(clause string, l *an.Leaf, why string) {
 		if _, dup := f.bad[clause]; !dup {
